@@ -157,8 +157,8 @@ def step_c03(fl, tier, rng): return steps.suite_kill(fl, tier, rng, "C03")
 def step_c04(fl, tier, rng): return steps.suite_kill(fl, tier, rng, "C04")
 
 REGISTRY = {
-    "C07": {"flavours": Q3, "suites": [], "step_suites": [("schedules", steps.suite_conc)],
-            "rule": "forced schedules on the real binaries (two processes, one directory): operation A is parked by strace (delay on entry) before its i-th system call that names a cache path — every such call in the thorough tier, a spread of them in the quick tier — while operation B runs to completion in a second process, then A resumes; pairs drawn from {write (same key / other key, same or other content), write_hash, a streamed writer whose commit is rejected (wrong declared size) with the same content, read, read_hash, metadata, remove, remove_hash, exists, list} on cold and warm caches; both results and the final tree (timestamps masked) must equal those of A;B or of B;A run serially on the same binaries."},
+    "C07": {"flavours": Q3, "suites": [], "step_suites": [("schedules", steps.suite_conc), ("schedules3", steps.suite_conc3)],
+            "rule": "forced schedules on the real binaries (two processes, one directory): operation A is parked by strace (delay on entry) before its i-th system call that names a cache path — every such call in the thorough tier, a spread of them in the quick tier — while operation B runs to completion in a second process, then A resumes; pairs drawn from {write (same key / other key, same or other content), write_hash, a streamed writer whose commit is rejected (wrong declared size) with the same content, read, read_hash, metadata, remove, remove_hash, exists, list} on cold and warm caches; both results and the final tree (timestamps masked) must equal those of A;B or of B;A run serially on the same binaries; plus three-operation schedules (three processes: A parked at its i-th call, B parked at its j-th, C runs, then B, then A) against the six serial orders."},
     "C19": {"flavours": Q3, "suites": [("link", suite_link)], "link_to": True,
             "rule": "targets of 0 / 1 / small / > 16 KiB and > 32 KiB bytes in the caller's directory; link_to / link_to_hash and linkers opened with options (declared size equal / wrong, integrity correct / wrong / other algorithm, algorithm, time, metadata) or plain, absolute and relative target paths, 0..3 partial reads (0, 1, 8, 100, 16384, 40000 byte buffers) before commit or drop, addresses that already exist as regular content; read / metadata / read_hash / exists / copy / list afterwards; whole tree compared (symlink, not a copy; target untouched); then targets are modified / grown / emptied / removed and everything is read again (errors, never other bytes); three flavours built with the link_to feature."},
     "C03": {"flavours": Q3, "suites": [("cancel", suite_cancel)], "step_suites": [("kill", step_c03), ("kill_renames_fail", steps.suite_kill_under_fault)],
